@@ -36,7 +36,16 @@ type Contract struct {
 	Pure      bool // no effect on the modelled heap
 	Src       string
 	Dead      []string // anchors of returns that are expected to be unreachable
+	// ReturnsAfter: every return must be dominated by a statement on a line containing After,
+	// unless it is dominated by a statement on a line containing one of Unless
+	ReturnsAfter []*ReturnsAfter
 	AssertsAt []*AssertAt // in-body assertions, attached to the statement whose source line contains Anchor
+}
+
+type ReturnsAfter struct {
+	After  string
+	Unless []string
+	Src    string
 }
 
 type AssertAt struct {
@@ -183,7 +192,7 @@ func newRegistry() *Registry {
 }
 
 var stmtKeywords = map[string]bool{
-	"package": true, "func": true, "requires": true, "ensures": true, "assume_ensures": true, "assert_at": true, "assume_at": true, "snapshot_at": true, "modifies": true, "unshared": true, "loop": true,
+	"package": true, "func": true, "requires": true, "ensures": true, "assume_ensures": true, "assert_at": true, "assume_at": true, "snapshot_at": true, "returns_after": true, "modifies": true, "unshared": true, "loop": true,
 	"invariant": true, "option": true, "trusted": true, "pure": true, "spec": true, "ufunc": true,
 	"axiom": true, "ghost": true, "decreases": true, "opaque": true, "macro": true, "mapvalues": true, "elemvalues": true, "guarded": true, "monitor": true, "frameset": true, "pkgalias": true, "lemmaonly": true, "dead": true, "lemma": true, "induct": true,
 }
@@ -434,6 +443,20 @@ func (r *Registry) loadContractFile(path string, pkgPath string) error {
 					}
 				}
 			}
+		case "returns_after":
+			// returns_after "anchor" [unless "a", "b", ...]
+			if cur == nil {
+				return fail("returns_after outside func")
+			}
+			ms := regexp.MustCompile(`"((?:[^"\\]|\\.)*)"`).FindAllStringSubmatch(s.rest, -1)
+			if len(ms) == 0 {
+				return fail(`returns_after needs '"anchor" [unless "a", "b"]'`)
+			}
+			ra := &ReturnsAfter{After: ms[0][1], Src: s.src}
+			for _, m := range ms[1:] {
+				ra.Unless = append(ra.Unless, m[1])
+			}
+			cur.ReturnsAfter = append(cur.ReturnsAfter, ra)
 		case "dead":
 			// dead "anchor": the return (or loop back edge) on the source line containing the anchor is
 			// expected to be unreachable under the contract's assumptions (not a sign of vacuity)
